@@ -105,9 +105,17 @@ example : Src.tbutils.ParsedException.to_string
 theorem fmtInt_ofNat (n : Nat) : fmtInt (n : Int) = natStr n := by
   simp [fmtInt, natStr]
 
+/-- `if a > k` read as `if a ≤ k` with the branches exchanged: one normal form for either way of writing the test -/
+theorem ite_gt_flip (a k : Int) (A B : Str) : (if a > k then A else B) = if a ≤ k then B else A := by
+  by_cases h : a ≤ k
+  · have : ¬ a > k := by omega
+    simp [h, this]
+  · have : a > k := by omega
+    simp [h, this]
+
 /-- the note with its literals abstracted (no closed string terms: nothing for `whnf` to evaluate) -/
 theorem note_generic (P T S E A B : Str) (hA : T ++ (S ++ E) = A) (hB : T ++ E = B) (c : Int) :
-    (if c ≤ 3 then ([] : Str) else P ++ (fmtInt (c - 3) ++ (T ++ ((if c - 3 > 1 then S else []) ++ E))))
+    (if c ≤ 3 then ([] : Str) else P ++ (fmtInt (c - 3) ++ (T ++ ((if c - 3 ≤ 1 then [] else S) ++ E))))
       = if c.toNat > 3 then P ++ natStr (c.toNat - 3) ++ (if c.toNat - 3 > 1 then A else B) else [] := by
   by_cases h : c ≤ 3
   · have h2 : ¬ (c.toNat > 3) := by omega
@@ -116,16 +124,16 @@ theorem note_generic (P T S E A B : Str) (hA : T ++ (S ++ E) = A) (hB : T ++ E =
     have h3 : c - 3 = ((c.toNat - 3 : Nat) : Int) := by omega
     rw [if_neg h, if_pos h2, h3, fmtInt_ofNat]
     by_cases h4 : c.toNat - 3 > 1
-    · have h5 : ((c.toNat - 3 : Nat) : Int) > 1 := by omega
-      rw [if_pos h4, if_pos h5, ← hA]; simp [List.append_assoc]
-    · have h5 : ¬ ((c.toNat - 3 : Nat) : Int) > 1 := by omega
-      rw [if_neg h4, if_neg h5, ← hB]; simp [List.append_assoc]
+    · have h5 : ¬ ((c.toNat - 3 : Nat) : Int) ≤ 1 := by omega
+      rw [if_pos h4, if_neg h5, ← hA]; simp [List.append_assoc]
+    · have h5 : ((c.toNat - 3 : Nat) : Int) ≤ 1 := by omega
+      rw [if_neg h4, if_pos h5, ← hB]; simp [List.append_assoc]
 
 /-- **tie**: the generated `_repeated_line_note` is the model's `flushRepeat` (a negative count is like 0) -/
 theorem src_repeated_line_note_eq_model (c : Int) :
     Src.tbutils.repeated_line_note c = flushRepeat c.toNat := by
   unfold Src.tbutils.repeated_line_note flushRepeat repeatedMsg
-  simp only [lit_empty, List.append_assoc, decide_eq_true_eq]
+  simp only [lit_empty, List.append_assoc, decide_eq_true_eq, ite_gt_flip]
   exact note_generic _ _ _ _ _ _ (by decide) (by decide) c
 
 example : Src.tbutils.repeated_line_note 5 = "  [Previous line repeated 2 more times]\n".toList := by decide
@@ -222,6 +230,8 @@ theorem src_get_formatted_eq_model (frames : List Callpoint) :
   intro st f
   obtain ⟨ret, last, cnt⟩ := st
   simp only [specStep, siteOf, src_tb_frame_str_eq_model]
+  have hc : (last != some (f.path, f.lineno, f.func)) = (some (f.path, f.lineno, f.func) != last) := bne_comm
+  try simp only [hc]
   by_cases hn : (some (f.path, f.lineno, f.func) != last) = true <;>
     by_cases h3 : cnt + 1 ≤ 3 <;> simp [hn, h3, List.append_assoc]
 
@@ -271,7 +281,7 @@ theorem src_type_str_eq_model (t : ExcType) : Src.tbutils.ExceptionInfo.type_str
   cases m with
   | none => simp [List.elem, fmtOS, lit_dot]
   | some m =>
-    simp only [elem_some_pair, lit_dot]
+    simp only [Option.isSome_some, Bool.not_true, Bool.false_eq_true, if_false, elem_some_pair, lit_dot]
     generalize [("__main__".toList), ("builtins".toList)].contains m = b
     cases b <;> simp [fmtOS]
 
